@@ -52,6 +52,26 @@ def run(run_, ctx):
     who_may_call(run_, F, pc)
     flavor_agnostic(run_, F, pc)
     siblings(run_, F, pc)
+    # C11.U: how the generic (de)serializer drives a reader / writer flavor is the wire-format table: which kinds are read byte by byte
+    # (no scratch) and which take a slot of exactly their length; which writes are single bytes and which are blocks (re-run of the
+    # C03 / C02 tables under this property, as C20.U does for the modifiers)
+    import c02
+    import c03
+    from c20 import _Sub
+    helpers = ctx.helpers("A")
+    sub = _Sub(run_, "U")
+    for f in sorted(pc.fns, key=lambda f: (f.impl_self or "", f.name)):
+        if f.dk != "AssocFn":
+            continue
+        s = f.impl_self or ""
+        if (c03.is_deser_self(s) and f.impl_trait in (c03.DE_TRAIT, "serde_core::de::VariantAccess", "serde_core::de::EnumAccess")) or \
+                (s.startswith("de::deserializer::SeqAccess<") and f.impl_trait == "serde_core::de::SeqAccess") or \
+                (s.startswith("de::deserializer::MapAccess<") and f.impl_trait == "serde_core::de::MapAccess"):
+            if f.name != "size_hint":
+                c03.check_method(sub, F, helpers, f)
+        if s == c02.SELF_TY and f.impl_trait == c02.SER_TRAIT:
+            c02.check_method(sub, F, helpers, f)
+    run_.floor("U", 60)
     # configuration B: the same adapters built against embedded-io 0.4 (the two embedded-io features are mutually exclusive)
     run_groups(run_, ctx, [
         ("R4", "de_reader", None, "reader flavor (embedded-io 0.4 build)"),
